@@ -61,6 +61,8 @@ def cases(rng, tier):
                     cs.append(Case("fqp.inv", [s, tl(a)]))
                     cs.append(Case("fqp.pow", [s, tl(a), rng.randrange(p ** 3)]))
                     cs.append(Case("fqp.pow", [s, tl(a), -rng.randrange(1, p + 3)]))
+                    u = [rng.choice([p, p + 1, -1, 2 * p, -p, 0, p - 1, rng.randrange(p)]) for _ in range(d)]
+                    cs.append(Case("fqp.ofints", [s, tl(u)]))
                     if v == "opt":
                         cs.append(Case("fqp.sgn0", [s, tl(a)]))
                         if d == 2:
@@ -175,6 +177,28 @@ def cmp_pred(p, d, mc, a, b):
     return (ok, f"comparison differs between reference and optimized at {a} {b}")
 
 
+def ctor_pred(p, d, mc, u):
+    """constructor with unreduced integer coefficients: reference and optimized store the same reduced coefficients,
+    compare equal to the reduced spelling, and sgn0 follows RFC 9380 on the reduced value"""
+    import pyexec
+    if d == 1:
+        R, Opt = pyexec.fcls(f"q:{p}:ref"), pyexec.fcls(f"q:{p}:opt")
+        r, o, red = R(u[0]), Opt(u[0]), Opt(u[0] % p)
+        co = lambda x: [int(x.n)]  # noqa: E731
+    else:
+        R, Opt = pyexec.fcls(espec("ref", p, mc)), pyexec.fcls(espec("opt", p, mc))
+        r, o, red = R(list(u)), Opt(list(u)), Opt([c % p for c in u])
+        co = lambda x: [int(c) for c in x.coeffs]  # noqa: E731
+    bad = []
+    if co(r) != co(o) or co(o) != [c % p for c in u]:
+        bad.append(f"stored coefficients: reference {co(r)[:3]}, optimized {co(o)[:3]}, reduced {[c % p for c in u][:3]}")
+    if not (o == red) or (o != red):
+        bad.append("optimized element built from unreduced ints != the same element built from reduced ints")
+    if int(o.sgn0) != int(red.sgn0):
+        bad.append("sgn0 differs between unreduced and reduced construction")
+    return (not bad, f"constructor with unreduced coefficients {u[:3]} over GF({p})^{d}: {bad}")
+
+
 def cmp_int_pred(p, a, k):
     """FQ == int / FQ != int with ints outside [0, p): the optimized class answers like the reference class"""
     import pyexec
@@ -196,6 +220,10 @@ def predicates(rng, tier, only=None):
             depth = rng.randrange(1, 9 if d < 12 else 5)
             leaves = [[rng.choice([0, 1, p - 1, rng.randrange(p)]) for _ in range(d)] for _ in range(3)]
             ps.append(Pred("expr-tree", tree_pred, (p, d, mc, gen_tree(rng, depth, 3, p), leaves)))
+        for _ in range(3):
+            u = [rng.choice([p, p + 1, -1, 2 * p, -p, 0, rng.randrange(p)]) for _ in range(d)]
+            ps.append(Pred("constructor", ctor_pred, (p, d, mc, u)))
+        ps.append(Pred("constructor", ctor_pred, (p, d, mc, [p] + [0] * (d - 1))))
         if d == 1:
             for _ in range(3):
                 ps.append(Pred("comparison", cmp_int_pred, (p, rng.choice([0, 1, p - 1, rng.randrange(p)]), rng.choice([-1, p, p + 1, -p, rng.randrange(p * p)]))))
